@@ -166,15 +166,35 @@ def verus_loop_kernels(plan):
     for op, path, sym in [("and", "machines/logic/src/and.rs", "&&"), ("or", "machines/logic/src/or.rs", "||"), ("xor", "machines/logic/src/xor.rs", "^")]:
         for kern in ("scalar_lhs", "scalar_rhs", "vec"):
             table.append((op, path, kern, sym, "bool", "bool", "logic"))
+    # the matrix-with-vector kernels (outer zip over the lines of the matrix, inner index loop over one line): the inner loop is proved for every length, the
+    # outer pairing is checked on the extracted header (ktrans.zip_kernel_body); `add` (nalgebra add_to) and `pow` (method call) stay with the Kani twins
+    ZIP = ("mat_vec", "vec_mat", "mat_row", "row_mat")
+    for op, path, sym, T in [("sub", "machines/math/src/ops/sub.rs", "-", "i64"), ("mul", "machines/math/src/ops/mul.rs", "*", "u8"),
+                             ("div", "machines/math/src/ops/div.rs", "/", "u64"), ("mod", "machines/math/src/ops/modulus.rs", "%", "u64")]:
+        for kern in ZIP:
+            table.append((op, path, kern, sym, T, T, "arith"))
+    for op, path, sym in [("eq", "machines/compare/src/eq.rs", "=="), ("neq", "machines/compare/src/neq.rs", "!="), ("gt", "machines/compare/src/gt.rs", ">"),
+                          ("gte", "machines/compare/src/gte.rs", ">="), ("lt", "machines/compare/src/lt.rs", "<"), ("lte", "machines/compare/src/lte.rs", "<=")]:
+        for kern in ZIP:
+            table.append((op, path, kern, sym, "i64", "bool", "cmp"))
+    for op, path, sym in [("and", "machines/logic/src/and.rs", "&&"), ("or", "machines/logic/src/or.rs", "||"), ("xor", "machines/logic/src/xor.rs", "^")]:
+        for kern in ZIP:
+            table.append((op, path, kern, sym, "bool", "bool", "logic"))
+    zitems, zfns = [], {}
     for op, path, kern, sym, T, O, cls in table:
         macro = "%s_%s_op" % (op, kern)
         name = "C01.verus.%s.%s.%s" % (op, kern, T)
+        pairing = None
         try:
-            body = ktrans.loop_kernel_body(vlib.extract_macro(vlib.read_repo(path), macro))
+            if kern in ZIP:
+                body, pok, pdetail = ktrans.zip_kernel_body(vlib.extract_macro(vlib.read_repo(path), macro), kern)
+                pairing = (pok, pdetail)
+            else:
+                body = ktrans.loop_kernel_body(vlib.extract_macro(vlib.read_repo(path), macro))
         except AnchorLost as e:
             plan.anchor_errors.append((name, str(e)))
             continue
-        lv, rv = kern in ("scalar_lhs", "vec"), kern in ("scalar_rhs", "vec")
+        lv, rv = kern in ("scalar_lhs", "vec") + ZIP, kern in ("scalar_rhs", "vec") + ZIP
         L = "lhs@[k]" if lv else "lhs"
         R = "rhs@[k]" if rv else "rhs"
         lt = ("&Vec<%s>" % T) if lv else T
@@ -184,12 +204,16 @@ def verus_loop_kernels(plan):
         if lv and rv:
             req.append("rhs@.len() == lhs@.len()")
         if cls == "arith":
-            if sym == "/":
+            if sym in ("/", "%"):
                 req.append(("forall|k: int| 0 <= k < rhs@.len() ==> #[trigger] rhs@[k] != 0") if rv else "rhs != 0")
-                spec = "(%s as int) / (%s as int)" % (L, R)
+                spec = "(%s as int) %s (%s as int)" % (L, sym, R)
+            elif sym == "*":
+                req.append("forall|k: int| 0 <= k < lhs@.len() ==> (#[trigger] lhs@[k] as int) * (rhs@[k] as int) <= %s::MAX" % T)
+                spec = "(%s as int) * (%s as int)" % (L, R)
             else:
                 spec = "(%s as int) %s (%s as int)" % (L, sym, R)
-                req.append("forall|k: int| 0 <= k < %s@.len() ==> %s::MIN <= (#[trigger] %s@[k] as int) - (%s as int) <= %s::MAX" % (drive, T, drive, ("rhs" if lv else "lhs"), T)
+                req.append("forall|k: int| 0 <= k < lhs@.len() ==> %s::MIN <= (#[trigger] lhs@[k] as int) - (rhs@[k] as int) <= %s::MAX" % (T, T) if (lv and rv) else
+                           "forall|k: int| 0 <= k < %s@.len() ==> %s::MIN <= (#[trigger] %s@[k] as int) - (%s as int) <= %s::MAX" % (drive, T, drive, ("rhs" if lv else "lhs"), T)
                            if lv else "forall|k: int| 0 <= k < rhs@.len() ==> %s::MIN <= (lhs as int) - (#[trigger] rhs@[k] as int) <= %s::MAX" % (T, T))
             post = "(#[trigger] final(out)@[k] as int) == %s" % spec
             inv_post = "(#[trigger] out@[k] as int) == %s" % spec
@@ -212,11 +236,26 @@ def verus_loop_kernels(plan):
             plan.anchor_errors.append((name, str(e)))
             continue
         fn = "%s_%s" % (macro, T)
-        items.append("fn %s(lhs: %s, rhs: %s, out: &mut Vec<%s>)\n  requires %s,\n  ensures final(out)@.len() == old(out)@.len(),\n    forall|k: int| 0 <= k < final(out)@.len() ==> %s,\n{\n  let ghost n = out@.len();\n  %s\n}\n" % (
-            fn, lt, rt, O, ",\n    ".join(req), post, body2))
+        ftext = "fn %s(lhs: %s, rhs: %s, out: &mut Vec<%s>)\n  requires %s,\n  ensures final(out)@.len() == old(out)@.len(),\n    forall|k: int| 0 <= k < final(out)@.len() ==> %s,\n{\n  let ghost n = out@.len();\n  %s\n}\n" % (
+            fn, lt, rt, O, ",\n    ".join(req), post, body2)
+        if pairing is not None:
+            # decided on the extracted loop header: which lines of `out` are paired with which lines of which operand
+            ftext += "proof fn pairing_%s()\n  ensures %s,   // %s\n{ }\n" % (fn, "true" if pairing[0] else "false", pairing[1])
+            zitems.append(ftext)
+            zfns[fn] = name
+            zfns["pairing_" + fn] = name
+            plan.ob(name, "verus", "proved", functions=["%s! (kernel of the %s forms)" % (macro, {"mat_vec": "matrix∘column-vector", "vec_mat": "column-vector∘matrix", "mat_row": "matrix∘row-vector", "row_mat": "row-vector∘matrix"}[kern])],
+                    what="for EVERY line length: within each %s of the matrix out[k] == lhs[k] %s rhs[k] with the operands in (lhs, rhs) order (the vector operand broadcast along the other dimension); the outer loop pairs %ss of out with %ss of the matrix operand (checked on the extracted header; that nalgebra's paired iterators visit line j with line j is assumed)" % (
+                        "column" if kern in ("mat_vec", "vec_mat") else "row", sym, "column" if kern in ("mat_vec", "vec_mat") else "row", "column" if kern in ("mat_vec", "vec_mat") else "row"))
+            continue
+        items.append(ftext)
         fns[fn] = name
         plan.ob(name, "verus", "proved", functions=["%s! (kernel of the %s forms)" % (macro, {"scalar_lhs": "matrix∘scalar", "scalar_rhs": "scalar∘matrix", "vec": "same-form"}[kern])],
                 what="for EVERY length: out[k] == lhs[k] %s rhs[k] (scalar operand broadcast), length unchanged" % sym)
+    if zfns:
+        zitems.append(verus_canary("canary_zip", "x: u64", []))
+        plan.verus.append(VerusUnit("c01_zip_kernels", verus_file(zitems), zfns, ["canary_zip"]))
+        plan.dropped.append(ktrans.zip_kernel_body.__doc__.strip())
     if fns:
         items.append(verus_canary("canary_loops", "x: u64", []))
         plan.verus.append(VerusUnit("c01_loop_kernels", verus_file(items), fns, ["canary_loops"]))
@@ -361,10 +400,21 @@ def select(kinds, tier, seed, op, forms):
     # one form per kernel macro (_op, _scalar_rhs_op, _scalar_lhs_op, _vec_op, _mat_vec_op, _vec_mat_op, _mat_row_op,
     # _row_mat_op); the remaining six forms re-use those macros on another storage type and are wired by the shared
     # impl_fxns! template, so they are run for the non-commutative `sub`, `gt`, `xor` only (and for everything in thorough)
-    if forms and isinstance(forms[0], tuple) and op not in ("sub",):
+    # The four matrix-with-vector kernels of every operator except `add` (nalgebra add_to) and `pow` are proved by Verus for every line length
+    # (C01.verus.<op>.{mat_vec,vec_mat,mat_row,row_mat}.*), so their Kani twins run in the quick tier for `sub` (every form: the wiring of the generated structs)
+    # and `add` only; the thorough tier runs every form of every operator.
+    if forms and isinstance(forms[0], tuple) and op == "add":
         sel[core] = [f for f in forms if f[0] in ("SS", "SMD", "MDS", "MDMD", "MDVD", "VDMD", "MDRD", "RDMD")]
+    elif forms and isinstance(forms[0], tuple) and op not in ("sub",):
+        sel[core] = [f for f in forms if f[0] in ("SS", "SMD", "MDS", "MDMD")]
     else:
         sel[core] = list(forms)
+    # vp check 12 (quick check > 15 min on the checking machine, 11 min here).  Long poles measured in the quick tier (they set the wall time of their Kani group): f64 scalar multiplication (190 s) and the matrix forms of `pow` (120-130 s
+    # each); both stay in the thorough tier, the scalar kernels of `mul` / `pow` are covered for the other kinds and by the Verus kernel units
+    if op == "mul" and "f64" in sel and core != "f64":
+        sel["f64"] = []
+    if op == "pow" and forms and isinstance(forms[0], tuple):
+        sel[core] = [f for f in sel[core] if f[0] == "SS"]
     # the seed-chosen extra is taken from the 16-bit kind only: a 64-bit matrix form chosen by VERIF_SEED=1 pushed the quick check past 15 minutes (vp check 4)
     rest = [k for k in quick_scalar if k != core and k in ("u16", "i16")]
     if op in ("mul", "div", "mod", "pow"):
